@@ -55,7 +55,9 @@ def build(words, nseg, rng, freqs, drop_first=False):
             docs.append({"live": True, "t": {"body": toks}, "n": {}, "b4": 4})
         for word in spchunks[ci]:
             w.add_document(key=u"k%d" % len(docs), sp=word)
-            docs.append({"live": True, "t": {"sp": [az(word)]}, "n": {}, "b4": 4})
+            # (spstem: the term the word is indexed under, as the field's own analyzer gives it)
+            stem = [t.text for t in schema["sp"].analyzer(word)][0]
+            docs.append({"live": True, "t": {"sp": [az(word)], "spstem": [az(stem)]}, "n": {}, "b4": 4})
         w.commit(merge=False)
     if drop_first:
         # the first document is deleted and merged away (the words of the others must stay where they are)
@@ -147,6 +149,17 @@ def check(run):
                                      "list": [world_term(t) for t in s.suggest("body", text, limit=limit, maxdist=k, prefix=p)]}))
                         run.count(len(obs))
                         qs.append({"q": aq, "obs": obs})
+            # fuzzy matching on that stemmed field goes by its terms (the stems), whatever it keeps for spelling
+            for text in (u"render", u"rendr", u"shade", u"shad", u"light", u"lihgt", u"track", u"trac", u"rendering"):
+                for k in (0, 1, 2):
+                    obs = []
+                    try:
+                        obs.append({"kind": "ids", "path": "FuzzyTerm on the stemmed field (%dseg)" % nseg,
+                                    "ids": sorted(int(d) for d in s.docs_for_query(query.FuzzyTerm("sp", text, maxdist=k)))})
+                    except Exception as ex:
+                        obs.append({"kind": "error", "path": "FuzzyTerm(sp)", "err": type(ex).__name__, "msg": str(ex)[:100]})
+                    run.count(len(obs))
+                    qs.append({"q": {"op": "fuzzy", "f": "spstem", "t": az(text), "maxdist": k, "prefix": 0, "b4": 4}, "obs": obs})
             # suggestions for a stemmed field that keeps its words for spelling: existing *words* (not stems)
             for typo in SPTYPOS:
                 for k in (1, 2):
